@@ -20,6 +20,16 @@ if [ ! -f $I/overlay.json ]; then
 fi
 cp $REPO/go.sum $V/harness/go.sum
 sed -i "s#^replace github.com/evolbioinfo/gotree => .*#replace github.com/evolbioinfo/gotree => $REPO#" $V/harness/go.mod
+if [ "$1" = plain ]; then
+  # the plain, uninstrumented gotree binary of the current working tree (fresh-process runs of C18)
+  OUT=$B/bin/gotree-$H
+  if [ ! -x $OUT ]; then
+    ( cd $REPO && go build -o $OUT.tmp . && mv $OUT.tmp $OUT ) >&2 || { echo "plain build failed" >&2; exit 2; }
+    ls -t $B/bin/gotree-* 2>/dev/null | tail -n +4 | xargs -r rm -f
+  fi
+  echo $OUT
+  exit 0
+fi
 OUT=$B/bin/vh-$H
 FLAGS=""
 if [ "$1" = race ]; then OUT=$OUT-race; FLAGS="-race"; fi
